@@ -153,7 +153,7 @@ def call_remove(o, d, u, r, via):
             o.remove_knot(**kw)
 
 
-def pick_insertion(rng, o, d, prefer_knot=0.4, fine=False, mindist=1e-3):
+def pick_insertion(rng, o, d, prefer_knot=0.4, fine=False, mindist=1e-3, small=0.0):
     """(u, s, tag): insertion parameter in direction d: a stored interior knot with multiplicity < p, or a value at least
     1e-3*range away from every knot. Returns None if nothing admissible."""
     p = G.degrees_of(o)[d]
@@ -168,6 +168,14 @@ def pick_insertion(rng, o, d, prefer_knot=0.4, fine=False, mindist=1e-3):
     # the parameter value 0.0 strictly inside an un-normalised domain is as admissible as any other
     if a < 0.0 < b and rng.random() < 0.35 and all(abs(k) >= mindist * (b - a) for k in set(U)):
         return 0.0, 0, 'in-span'
+    # with probability `small`: a parameter 1.2e-3 .. 9.9e-3 of the range away from a domain end (still >= 1e-3 from every knot); decimal
+    # round trips of such values at 18 places are not the identity, which is where tolerance/exact-comparison mismatches surface
+    if small and rng.random() < small:
+        for _ in range(20):
+            h = (b - a) * rng.uniform(1.2e-3, 9.9e-3)
+            u = a + h if rng.random() < 0.75 else b - h
+            if a < u < b and all(abs(u - k) >= 1e-3 * (b - a) for k in set(U)):
+                return u, 0, 'in-span'
     for _ in range(50):
         u = rng.uniform(a, b) if not fine else a + (b - a) * rng.choice([rng.uniform(0, 1e-4), rng.uniform(1e-4, 1e-2)])
         if a < u < b and all(abs(u - k) >= (mindist if not fine else 1e-7) * (b - a) for k in set(U)):
